@@ -14,7 +14,9 @@ PROP = dict(race_binary=True,
          "binding kind alone and all together; n random histories of events interleaved with pings and identity/topology/map updates, "
          "one write per message / one byte per write / random cuts; bursts of 50-500 events without and with SetLEDColor feedback from the "
          "handlers; over-limit headers {500000, 500001, 2^31, 2^32-1} and truncated frames at first / middle position followed by valid "
-         "frames; Bind* from a second goroutine during a burst (child process; thorough: also race-instrumented). EQ = invocation log, ack "
+         "frames; topology updates of varying shape (a later, smaller topology after a richer one: GetTopology() must equal a fresh parse of the last JSON); "
+         "back-pressure (the panel stops reading while a handler's 24-40 x 1 MiB feedback fills the outgoing queue, pings in that window, reads again: "
+         "one ack per ping); Bind* from a second goroutine during a burst (child process; thorough: also race-instrumented). EQ = invocation log, ack "
          "count and final state equal the model's (Gorwp.dispatch / acks / finalState; the reader variant and a stall are reported as branch "
          "tags); H = Spec/GorwpSpec.lean on the observation; distinct = distinct script text",
     trusted_base=["Go scheduler, memory model (data races are looked for with the runtime's map check and, thorough, -race: supporting evidence only), "
@@ -30,7 +32,7 @@ CLAIM = dict(
          "(Gorwp.dispatch, mirroring procesMessagesFromPanel) is exactly, event by event in panel order, one invocation per bound handler "
          "whose kind matches a component of the event, with the event's id, press state, edge or value (C19.dispatch_exactly_once_in_order, "
          "stated with the independent checker Spec.Gorwp.checkLog); one ack per ping; the stored model / serial / name / topology JSON / SVG "
-         "are the latest non-empty values and the availability map holds the latest value per key; IsInitialized holds exactly when model, "
+         "are the latest non-empty values, the parsed topology is built from the latest JSON only (C19.topology_getter_from_latest_json; JSON parsing itself is not modelled) and the availability map holds the latest value per key; IsInitialized holds exactly when model, "
          "serial, topology JSON and SVG have all arrived. For an LTS of the reader and the single select loop with its two bounded queues: "
          "with the over-limit branch returning (repair 1) nothing after a broken frame is ever dispatched and every message before it is "
          "dispatched at most once in order; with the writer decoupled from the dispatcher (repair 2) the loop is never blocked for good. For "
